@@ -6658,11 +6658,15 @@ fn eval_expr(
                 let mut items: rpds::HashTrieMap<String, Value> = rpds::HashTrieMap::new();
                 let mut value_type = Type::no_value();
 
+                // The values popped so far, so we can restore them on error.
+                let mut popped_values: Vec<Value> = vec![];
+
                 for kv in item_exprs {
                     // The evaluated value of key-value pair.
                     let value_value = env
                         .pop_value()
                         .expect("Value stack should have sufficient items for the dict literal");
+                    popped_values.push(value_value.clone());
 
                     // TODO: check that all elements are of a compatible type.
                     // Dict[1 => 1, 2 => ""] should be a runtime error.
@@ -6671,12 +6675,12 @@ fn eval_expr(
                     let key_value = env
                         .pop_value()
                         .expect("Value stack should have sufficient items for the dict literal");
+                    popped_values.push(key_value.clone());
 
                     let key_str = check_string(
                         &key_value,
                         &kv.key.position,
-                        // TODO: set saved_values properly here.
-                        vec![],
+                        popped_values.iter().rev().cloned().collect(),
                         env,
                     )?;
 
@@ -7544,11 +7548,15 @@ fn eval_struct_value(
 
     let mut fields = vec![];
 
+    // The values popped so far, so we can restore them on error.
+    let mut popped_values: Vec<Value> = vec![];
+
     let type_bindings = env.current_frame().type_bindings.clone();
     for (field_sym, field_expr) in field_exprs {
         let field_value = env
             .pop_value()
             .expect("Value stack should have sufficient items for the struct literal");
+        popped_values.push(field_value.clone());
 
         let Some(field_info) = expected_fields_by_name.remove(&field_sym.name) else {
             // TODO: this would be a good candidate for additional
@@ -7560,7 +7568,7 @@ fn eval_struct_value(
             ))]);
 
             return Err((
-                RestoreValues(vec![]), // TODO
+                RestoreValues(popped_values.iter().rev().cloned().collect()),
                 EvalError::Exception(ExceptionInfo {
                     position: field_sym.position.clone(),
                     message,
@@ -7579,7 +7587,7 @@ fn eval_struct_value(
             Type::from_hint(&field_info.hint, &env.types, &type_bindings).unwrap_or_err_ty();
         if let Err(msg) = check_type(&field_value, &expected_ty, env) {
             return Err((
-                RestoreValues(vec![]), // TODO
+                RestoreValues(popped_values.iter().rev().cloned().collect()),
                 EvalError::Exception(ExceptionInfo {
                     position: field_expr.position.clone(),
                     message: ErrorMessage(vec![Text(format!(
@@ -7606,7 +7614,7 @@ fn eval_struct_value(
         ))]);
 
         return Err((
-            RestoreValues(vec![]), // TODO
+            RestoreValues(popped_values.iter().rev().cloned().collect()),
             EvalError::Exception(ExceptionInfo {
                 position: outer_expr_pos.clone(),
                 message,
